@@ -295,6 +295,12 @@ func SelCh[C any](k *SelState, i int, c C) C {
 	return c
 }
 
+// ---- raw system calls on descriptors of simulated files ----
+
+// RawWrite is write(2) on a descriptor a simulated file handed out through
+// Fd(); set by package simos.  ok=false: the descriptor is not one of theirs.
+var RawWrite func(fd int, p []byte) (n int, err error, ok bool)
+
 // ---- map iteration order ----
 
 // MapOrderer is implemented by a world that owns the order in which relic
